@@ -92,17 +92,21 @@ Definition spec_data (e : entity) (cs : list component) : Prop :=
 (* Status: <PREFIX>UNSPECIFIED (or the declared first status when that already ends in
    UNSPECIFIED) = 0, then the declared statuses numbered 1..n in declaration order, every value
    carrying the prefix SCREAMING_SNAKE(entity)_STATUS_ *)
-Definition declared_after_zero (l : list bytes) : list bytes :=
+(* [n0]: the number the first status declares (0 = none): a first status ending in UNSPECIFIED that
+   declares no number IS the zero value; declared numbers do not otherwise influence the numbering *)
+Definition declared_after_zero_n (l : list bytes) (n0 : N) : list bytes :=
   match l with
-  | s :: r => if has_suffix (bs "UNSPECIFIED") s then r else l
+  | s :: r => if has_suffix (bs "UNSPECIFIED") s && (n0 =? 0) then r else l
   | [] => []
   end.
+Definition declared_after_zero (l : list bytes) : list bytes := declared_after_zero_n l 0.
+Definition sp_first_number (e : entity) : N := match e_status_num e with n :: _ => n | [] => 0 end.
 Definition spec_status (e : entity) (cs : list component) : Prop :=
   exists vs, has_enum cs (sp_name e "Status") vs
     /\ (exists z, nth_error vs 0 = Some (z, 0) /\ has_suffix (bs "UNSPECIFIED") z = true
                   /\ has_prefix (sp_status_prefix e) z = true)
-    /\ length vs = S (length (declared_after_zero (e_status e)))
-    /\ forall k s, nth_error (declared_after_zero (e_status e)) k = Some s ->
+    /\ length vs = S (length (declared_after_zero_n (e_status e) (sp_first_number e)))
+    /\ forall k s, nth_error (declared_after_zero_n (e_status e) (sp_first_number e)) k = Some s ->
          exists v, nth_error vs (S k) = Some (v, N.of_nat (S k))
                    /\ has_prefix (sp_status_prefix e) v = true /\ has_suffix s v = true.
 
@@ -301,12 +305,13 @@ Definition command_service (e : entity) (c : command) : bytes :=
    <PREFIX><option>, an option that already carries the prefix keeps its name, and the value 0 is
    <PREFIX>UNSPECIFIED unless the first option itself ends in UNSPECIFIED) *)
 Definition sp_value_name (prefix s : bytes) : bytes := if has_prefix prefix s then s else prefix ++ s.
-Definition sp_enum_values (prefix : bytes) (opts : list bytes) : list bytes :=
+Definition sp_enum_values_n (prefix : bytes) (opts : list bytes) (n0 : N) : list bytes :=
   match opts with
-  | s :: _ => if has_suffix (bs "UNSPECIFIED") s then map (sp_value_name prefix) opts
+  | s :: _ => if has_suffix (bs "UNSPECIFIED") s && (n0 =? 0) then map (sp_value_name prefix) opts
               else (prefix ++ bs "UNSPECIFIED") :: map (sp_value_name prefix) opts
   | [] => [prefix ++ bs "UNSPECIFIED"]
   end.
+Definition sp_enum_values (prefix : bytes) (opts : list bytes) : list bytes := sp_enum_values_n prefix opts 0.
 Definition sp_schema_names (s : eschema) : list bytes :=
   match s with
   | SObject n _ => [n]
@@ -316,7 +321,7 @@ Definition sp_schema_names (s : eschema) : list bytes :=
 (* <pkg>: the six schemas, the status values, the schemas of the block with their enum values *)
 Definition sp_main_scope (e : entity) : list bytes :=
   [sp_name e "Keys"; sp_name e "Data"; sp_name e "Status"]
-  ++ sp_enum_values (sp_status_prefix e) (e_status e)
+  ++ sp_enum_values_n (sp_status_prefix e) (e_status e) (sp_first_number e)
   ++ [sp_name e "State"; sp_name e "EventType"; sp_name e "Event"]
   ++ flat_map sp_schema_names (e_schemas e).
 (* <pkg>.service: request/response messages of the query and command methods, the services *)
